@@ -338,7 +338,9 @@ def render_dtor(d, E, cfg):
             if a.get("static") == "last":
                 E.t("static")
             if a.get("size") == "*":
-                E.t("*")
+                sm = M("id", name="*")       # the ID('*') node of the AST is located at this token
+                sm.first = sm.last = sm.tok = E.t("*")
+                a["star_m"] = sm
             elif a.get("size") is not None:
                 rx(a["size"], ASSIGN, E, cfg)
             E.t("]")
